@@ -91,6 +91,11 @@ def _worker(a):
                     elif r.status == "crash":
                         crashed = True
                         tag = text.split("\n", 1)[0].split(" ")[2]
+                        unj = getattr(mod, "unjudged_crash", None)
+                        cat = unj(r.crash["kind"]) if unj else (r.crash["kind"] if r.crash["kind"].startswith("limit:") else None)
+                        if cat:
+                            rep.stat("unjudged." + cat)
+                            continue
                         rep.viol("%s|%s|%s" % (tag, r.crash["kind"], r.crash["func"]),
                                  r.crash["descr"] + "\n" + r.crash["report"][-1500:], [text])
                 if crashed and not getattr(mod, "JUDGE_CRASHED", False):
@@ -117,7 +122,7 @@ def run(mod, tier, seed):
     chk.assumptions = list(getattr(mod, "ASSUMPTIONS", []))
     try:
         argh.interp_exe(getattr(mod, "FLAVOUR", "asan"))     # build once; the workers find it in the cache
-        total = mod.cases(tier)
+        total = int(os.environ.get("VERIF_CASES") or mod.cases(tier))   # VERIF_CASES: development only
         nw = min(vc.NCPU, max(1, total // 50))
         per = (total + nw - 1) // nw
         batch = getattr(mod, "BATCH", 100)
